@@ -20,12 +20,29 @@ class Parity:
         self.snap = {}
 
     # ---- expressions
+    @staticmethod
+    def key_of(e):
+        """what a parity fact is recorded for: a variable, or a call of a pure length function on variables (`strlen(name)`)"""
+        e = _strip_casts(e)
+        while e is not None and e.k == 'ParenExpr':
+            e = _strip_casts(e.c[0])
+        if e is None:
+            return None
+        k = lvalue_key(e)
+        if k:
+            return k
+        if e.k == 'CallExpr' and e.callee in ('strlen',) and all(lvalue_key(_strip_casts(a)) for a in e.args):
+            return 'expr:' + ' '.join(e.text().split())
+        return None
+
     def par(self, e, st):
         e = _strip_casts(e)
         if e is None:
             return None
         if e.k == 'ParenExpr':
             return self.par(e.c[0], st)
+        if e.k == 'CallExpr' and self.key_of(e) in st:
+            return st[self.key_of(e)]
         if e.cv is not None and e.k != 'DeclRefExpr':
             return 'E' if e.cv % 2 == 0 else 'O'
         if e.k == 'DeclRefExpr':
@@ -37,7 +54,7 @@ class Parity:
                     return 'E' if a == b else 'O'
                 # x + x % 2, x + (x & 1)
                 l, r = _strip_casts(e.child('lhs')), _strip_casts(e.child('rhs'))
-                if e.op == '+' and self._odd_test_of(r) is not None and lvalue_key(l) == self._odd_test_of(r):
+                if e.op == '+' and self._odd_test_of(r) is not None and self.key_of(l) == self._odd_test_of(r):
                     return 'E'
                 return None
             if e.op == '*':
@@ -54,6 +71,11 @@ class Parity:
             if e.op == '<<':
                 s = _strip_casts(e.child('rhs')).cv
                 return 'E' if s is not None and s >= 1 else None
+        if e.k == 'ConditionalOperator':
+            c = e.child('cond')
+            a = self.par(e.child('then'), self.refine(c, st, True))
+            b = self.par(e.child('else'), self.refine(c, st, False))
+            return a if a is not None and a == b else None
         if e.k == 'UnaryExprOrTypeTraitExpr' and e.cv is not None:
             return 'E' if e.cv % 2 == 0 else 'O'
         return None
@@ -64,7 +86,7 @@ class Parity:
         while c is not None and c.k == 'ParenExpr':
             c = _strip_casts(c.c[0])
         if c is not None and c.k == 'BinaryOperator' and ((c.op == '%' and _strip_casts(c.child('rhs')).cv == 2) or (c.op == '&' and _strip_casts(c.child('rhs')).cv == 1)):
-            return lvalue_key(_strip_casts(c.child('lhs')))
+            return self.key_of(c.child('lhs'))
         return None
 
     def refine(self, cond, st, truth):
